@@ -41,6 +41,9 @@ def run(ctx) -> None:
     ctx.rule("R1", "append-only write, only under (no config and not dry); dry exits 0 without writing; existing config exits 1")
     ctx.rule("R2", "templates parse with the stdlib parser; section/keys/booleans are what the readers consume; self pattern present")
     ctx.rule("R3", "initial version is in the language of the template's version pattern")
+    ctx.rule("R6", "prerequisite: what init writes is what the readers accept - section names of templates and readers agree, whole sections are taken (C18/R2, R3)")
+    from sa.report import run_prerequisite as _rp19
+    _rp19(ctx, "C18", ("R2", "R3"), "R6")
     ctx.rule("R5", "in any project directory: a pyproject.toml without a bumpver section (other [tool.*] tables) is read without an error (C18's TOML section rule)")
     from checks.c18 import toml_section_eval
     toml_section_eval(ctx, "R5")
@@ -234,133 +237,135 @@ def run(ctx) -> None:
         ctx.require(isinstance(e, ast.BinOp) and isinstance(e.op, ast.Div) and unparse(e.left) == pk.params[0] and const_str(e.right), "candidate shape not enumerated")
         names.append(const_str(e.right))
     ctx.check("R4", set(names) == set(sup) and len(names) == len(set(names)), "candidates == SUPPORTED_CONFIGS (as a set)", "config._pick_config_filepath: candidates differ from SUPPORTED_CONFIGS", f"{names} vs {sup}", loc=pk.loc())
-    loops = [n for n in pk.node.body if isinstance(n, ast.For)]
-    ctx.check("R4", len(loops) == 2 and all(unparse(l.iter) == "config_candidates" for l in loops), "two passes over the candidates", "config._pick_config_filepath: pass structure changed", "", loc=pk.loc())
-    if len(loops) == 2:
-        first, second = loops
-        gk = cfgs.get(pk.fq)
-        pcg = PathCond(gk)
-        rets1 = [n for n in ast.walk(first) if isinstance(n, ast.Return)]
-        ctx.require(len(rets1) == 1 and unparse(rets1[0].value) == unparse(first.target), "first pass: return shape changed")
-        r = pcg.reach(gk.node_containing(rets1[0].value)).drop_unused()
-        ex_atom = [a for a in r.atoms if a.endswith(".exists()")]
-        sec_atoms = [a for a in r.atoms if a not in ex_atom]
-        ctx.require(len(ex_atom) == 1 and len(sec_atoms) >= 1, f"first pass: atoms {r.atoms}")
+    decided_pick = pick_config_eval(ctx, "R4", names)
+    if not decided_pick:
+        loops = [n for n in pk.node.body if isinstance(n, ast.For)]
+        ctx.check("R4", len(loops) == 2 and all(unparse(l.iter) == "config_candidates" for l in loops), "two passes over the candidates", "config._pick_config_filepath: pass structure changed", "", loc=pk.loc())
+        if len(loops) == 2:
+            first, second = loops
+            gk = cfgs.get(pk.fq)
+            pcg = PathCond(gk)
+            rets1 = [n for n in ast.walk(first) if isinstance(n, ast.Return)]
+            ctx.require(len(rets1) == 1 and unparse(rets1[0].value) == unparse(first.target), "first pass: return shape changed")
+            r = pcg.reach(gk.node_containing(rets1[0].value)).drop_unused()
+            ex_atom = [a for a in r.atoms if a.endswith(".exists()")]
+            sec_atoms = [a for a in r.atoms if a not in ex_atom]
+            ctx.require(len(ex_atom) == 1 and len(sec_atoms) >= 1, f"first pass: atoms {r.atoms}")
 
-        def inline(e: ast.AST, depth: int = 0) -> ast.AST:
-            """Replace single-assignment boolean locals by their definitions."""
-            if isinstance(e, ast.Name) and depth < 5:
-                d = shapes.single_def(pk, e.id)
-                if d is not None:
-                    return inline(d, depth + 1)
+            def inline(e: ast.AST, depth: int = 0) -> ast.AST:
+                """Replace single-assignment boolean locals by their definitions."""
+                if isinstance(e, ast.Name) and depth < 5:
+                    d = shapes.single_def(pk, e.id)
+                    if d is not None:
+                        return inline(d, depth + 1)
+                    return e
+                if isinstance(e, ast.BoolOp):
+                    return ast.BoolOp(op=e.op, values=[inline(v, depth) for v in e.values])
+                if isinstance(e, ast.UnaryOp) and isinstance(e.op, ast.Not):
+                    return ast.UnaryOp(op=e.op, operand=inline(e.operand, depth))
                 return e
-            if isinstance(e, ast.BoolOp):
-                return ast.BoolOp(op=e.op, values=[inline(v, depth) for v in e.values])
-            if isinstance(e, ast.UnaryOp) and isinstance(e.op, ast.Not):
-                return ast.UnaryOp(op=e.op, operand=inline(e.operand, depth))
-            return e
 
-        def classify(leaf: ast.AST) -> T.Tuple[str, bool]:
-            if isinstance(leaf, ast.Compare) and isinstance(leaf.ops[0], (ast.In, ast.NotIn)) and isinstance(leaf.left, ast.Constant) and isinstance(leaf.left.value, bytes):
-                return leaf.left.value.decode(), isinstance(leaf.ops[0], ast.In)
-            # a compiled expression searched in the file content: decided on the header spellings the readers accept
-            e = leaf
-            while isinstance(e, ast.Call) and unparse(e.func) == "bool" and len(e.args) == 1:
-                e = e.args[0]
-            pol = True
-            if isinstance(e, ast.Compare) and len(e.ops) == 1 and isinstance(e.ops[0], (ast.Is, ast.IsNot)) and isinstance(e.comparators[0], ast.Constant) and e.comparators[0].value is None:
-                pol = isinstance(e.ops[0], ast.IsNot)
-                e = e.left
-            if isinstance(e, ast.Call) and isinstance(e.func, ast.Attribute) and e.func.attr in ("search", "findall", "finditer") and isinstance(e.func.value, ast.Name) \
-                    and e.func.value.id in pk.module.consts:
-                rx = pk.module.consts[e.func.value.id][-1]
-                if isinstance(rx, ast.Call) and unparse(rx.func) == "re.compile" and rx.args and isinstance(rx.args[0], ast.Constant) and isinstance(rx.args[0].value, (bytes, str)):
-                    fl_node = rx.args[1] if len(rx.args) > 1 else next((k.value for k in rx.keywords if k.arg == "flags"), None)
-                    flags = 0
-                    for nm in (unparse(fl_node).replace("re.", "").split("|") if fl_node is not None else []):
-                        flags |= getattr(re, nm.strip(), 0)
-                    cre = re.compile(rx.args[0].value, flags)
-                    as_b = isinstance(rx.args[0].value, bytes)
-                    heads = ["[bumpver]", "[tool.bumpver]", "[pycalver]"]
-                    variants = ["{h}\n", "{h}\r\n", "{h} \n", "{h}\t\r\n", "{h}"]      # LF, CRLF, trailing blanks, end of file
-                    missed = []
-                    for h in heads:
-                        for v_ in variants:
-                            txt = "[metadata]\nname = x\n\n" + v_.format(h=h) + ("current_version = 1\n" if v_ != "{h}" else "")
-                            if not cre.search(txt.encode() if as_b else txt):
-                                missed.append(v_.format(h=h))
-                    ctx.check("R4", not missed, f"section detection `{unparse(rx)[:50]}` finds every header spelling the readers accept",
-                              "config._pick_config_filepath: an existing bumpver section is not recognised in some files the readers accept",
-                              f"`{unparse(rx)[:80]}` misses {missed[:4]!r}: a configured file saved with CRLF line endings or with blanks after the header is not preferred; "
-                              f"`show` reads another file and `init` writes a second configuration", loc=pk.loc(leaf), witness={"header line": missed[0]} if missed else None)
-                    return "SECTION", pol
-            raise AnalysisError(f"C19/R4: section test leaf not enumerated: {unparse(leaf)}")
+            def classify(leaf: ast.AST) -> T.Tuple[str, bool]:
+                if isinstance(leaf, ast.Compare) and isinstance(leaf.ops[0], (ast.In, ast.NotIn)) and isinstance(leaf.left, ast.Constant) and isinstance(leaf.left.value, bytes):
+                    return leaf.left.value.decode(), isinstance(leaf.ops[0], ast.In)
+                # a compiled expression searched in the file content: decided on the header spellings the readers accept
+                e = leaf
+                while isinstance(e, ast.Call) and unparse(e.func) == "bool" and len(e.args) == 1:
+                    e = e.args[0]
+                pol = True
+                if isinstance(e, ast.Compare) and len(e.ops) == 1 and isinstance(e.ops[0], (ast.Is, ast.IsNot)) and isinstance(e.comparators[0], ast.Constant) and e.comparators[0].value is None:
+                    pol = isinstance(e.ops[0], ast.IsNot)
+                    e = e.left
+                if isinstance(e, ast.Call) and isinstance(e.func, ast.Attribute) and e.func.attr in ("search", "findall", "finditer") and isinstance(e.func.value, ast.Name) \
+                        and e.func.value.id in pk.module.consts:
+                    rx = pk.module.consts[e.func.value.id][-1]
+                    if isinstance(rx, ast.Call) and unparse(rx.func) == "re.compile" and rx.args and isinstance(rx.args[0], ast.Constant) and isinstance(rx.args[0].value, (bytes, str)):
+                        fl_node = rx.args[1] if len(rx.args) > 1 else next((k.value for k in rx.keywords if k.arg == "flags"), None)
+                        flags = 0
+                        for nm in (unparse(fl_node).replace("re.", "").split("|") if fl_node is not None else []):
+                            flags |= getattr(re, nm.strip(), 0)
+                        cre = re.compile(rx.args[0].value, flags)
+                        as_b = isinstance(rx.args[0].value, bytes)
+                        heads = ["[bumpver]", "[tool.bumpver]", "[pycalver]"]
+                        variants = ["{h}\n", "{h}\r\n", "{h} \n", "{h}\t\r\n", "{h}"]      # LF, CRLF, trailing blanks, end of file
+                        missed = []
+                        for h in heads:
+                            for v_ in variants:
+                                txt = "[metadata]\nname = x\n\n" + v_.format(h=h) + ("current_version = 1\n" if v_ != "{h}" else "")
+                                if not cre.search(txt.encode() if as_b else txt):
+                                    missed.append(v_.format(h=h))
+                        ctx.check("R4", not missed, f"section detection `{unparse(rx)[:50]}` finds every header spelling the readers accept",
+                                  "config._pick_config_filepath: an existing bumpver section is not recognised in some files the readers accept",
+                                  f"`{unparse(rx)[:80]}` misses {missed[:4]!r}: a configured file saved with CRLF line endings or with blanks after the header is not preferred; "
+                                  f"`show` reads another file and `init` writes a second configuration", loc=pk.loc(leaf), witness={"header line": missed[0]} if missed else None)
+                        return "SECTION", pol
+                raise AnalysisError(f"C19/R4: section test leaf not enumerated: {unparse(leaf)}")
 
-        def unfold_any(e: ast.AST) -> ast.AST:
-            """`any(m in data for m in CONST)` -> `c1 in data or c2 in data ...`"""
-            class U(ast.NodeTransformer):
-                def visit_Call(self, node: ast.Call) -> ast.AST:
-                    self.generic_visit(node)
-                    if unparse(node.func) in ("any", "all") and len(node.args) == 1 and isinstance(node.args[0], (ast.GeneratorExp, ast.ListComp)) and len(node.args[0].generators) == 1 \
-                            and isinstance(node.args[0].generators[0].target, ast.Name) and not node.args[0].generators[0].ifs:
-                        g_ = node.args[0].generators[0]
-                        try:
-                            items = prog.fold(pk.module, g_.iter)
-                        except AnalysisError:
-                            return node
-                        if isinstance(items, (tuple, list)) and items and all(isinstance(x_, (bytes, str)) for x_ in items):
-                            import copy as _cp
+            def unfold_any(e: ast.AST) -> ast.AST:
+                """`any(m in data for m in CONST)` -> `c1 in data or c2 in data ...`"""
+                class U(ast.NodeTransformer):
+                    def visit_Call(self, node: ast.Call) -> ast.AST:
+                        self.generic_visit(node)
+                        if unparse(node.func) in ("any", "all") and len(node.args) == 1 and isinstance(node.args[0], (ast.GeneratorExp, ast.ListComp)) and len(node.args[0].generators) == 1 \
+                                and isinstance(node.args[0].generators[0].target, ast.Name) and not node.args[0].generators[0].ifs:
+                            g_ = node.args[0].generators[0]
+                            try:
+                                items = prog.fold(pk.module, g_.iter)
+                            except AnalysisError:
+                                return node
+                            if isinstance(items, (tuple, list)) and items and all(isinstance(x_, (bytes, str)) for x_ in items):
+                                import copy as _cp
 
-                            class S(ast.NodeTransformer):
-                                def __init__(self, v_: T.Any):
-                                    self.v_ = v_
-                                def visit_Name(self, n_: ast.Name) -> ast.AST:
-                                    return ast.Constant(value=self.v_) if n_.id == g_.target.id else n_
-                            vals_ = [S(x_).visit(_cp.deepcopy(node.args[0].elt)) for x_ in items]
-                            return ast.BoolOp(op=ast.Or() if unparse(node.func) == "any" else ast.And(), values=vals_) if len(vals_) > 1 else vals_[0]
-                    return node
-            return U().visit(e)
-        # the section test as the path condition states it (atoms may be the operands of a short-circuit test or one
-        # boolean local): each atom is replaced by what it means in terms of the byte strings searched for
-        meaning = {a: shapes.bool_expr_bf(unfold_any(inline(ast.parse(a, mode="eval").body)), classify) for a in sec_atoms}
-        sec = r.exists(ex_atom[0]).project(sec_atoms).compose(meaning) if sec_atoms else BF.true()
-        # decided on sample contents: the atoms are "this byte string occurs in the file"; a file is to be preferred iff it holds
-        # one of the readers' section headers and a current_version key
-        heads = ["[bumpver]", "[tool.bumpver]", "[pycalver]"]
-        foreign = ["[bumpversion]", "[tool.bumpversion]", "[bumpver2]", "[tool.bumpver-next]", "[metadata]"]
-        samples = []
-        for h_ in heads + foreign:
-            for cv_ in (True, False):
-                for end_ in ("\n", "\r\n"):
-                    txt_ = "[metadata]" + end_ + "name = x" + end_ + end_ + h_ + end_ + ("current_version = 1" + end_ if cv_ else "version = 1" + end_)
-                    samples.append((txt_, h_ in heads and cv_, h_ in heads))
-        wrong = None
-        for txt_, want_, has_head_ in samples:
-            f_ = sec
-            for a_ in list(sec.atoms):
-                f_ = f_.restrict(a_, has_head_ if a_ == "SECTION" else (a_.encode() in txt_.encode()))
-            if f_.drop_unused().is_true() != want_ and wrong is None:
-                wrong = {"content": txt_, "preferred": f_.drop_unused().is_true(), "expected": want_}
-        ctx.check("R4", r.implies(BF.var(ex_atom[0])) and wrong is None,
-                  f"first pass returns the first existing candidate holding a bumpver/pycalver section and current_version  [{len(samples)} sample contents]",
-                  "config._pick_config_filepath: preference for already configured files changed",
-                  f"returns when {r.to_dnf()} with section test {sec.to_dnf()}; differs for {wrong!r}: e.g. a pyproject.toml of another tool (`[tool.bumpversion]` with a current_version key) "
-                  f"is taken for the bumpver configuration and the real one is never read" if wrong else "", loc=pk.loc(first), witness=wrong)
-        opens = [s_ for s_ in effects.sites[pk.fq] if s_.detail.get("via") == "open"]
-        reads = [c for c in ast.walk(first) if isinstance(c, ast.Call) and isinstance(c.func, ast.Attribute) and c.func.attr in ("read", "read_bytes", "read_text", "readline", "readlines", "peek", "read1", "readinto")]
-        partial = [c for c in reads if c.func.attr not in ("read", "read_bytes", "read_text") or c.args or (c.func.attr == "read" and c.keywords)]
-        ctx.check("R4", bool(reads) and not partial, "first pass looks for the section in the whole file", "config._pick_config_filepath: only part of a candidate file is searched for an existing section",
-                  f"`{unparse(partial[0]) if partial else None}`: a [bumpver] section further down (where `init` itself appends it in a long setup.cfg) is not seen, "
-                  f"a second `init` then writes a second configuration into another file", loc=pk.loc(partial[0] if partial else first))
-        ctx.check("R4", len(opens) == 1 and "b" in (opens[0].detail.get("mode") or ""), "first pass reads candidates in binary mode (no decoding errors)", "config._pick_config_filepath: candidate read mode changed", "", loc=pk.loc(first))
-        rets2 = [n for n in ast.walk(second) if isinstance(n, ast.Return)]
-        ok2 = len(rets2) == 1 and unparse(rets2[0].value) == unparse(second.target)
-        if ok2:
-            r2 = pcg.reach(gk.node_containing(rets2[0].value)).drop_unused()
-            ok2 = len(r2.atoms) == 1 and r2.atoms[0].endswith(".exists()") and r2.equiv(BF.var(r2.atoms[0]))
-        ctx.check("R4", ok2, "second pass: the first existing candidate, whatever its content", "config._pick_config_filepath: existence fallback changed", "", loc=pk.loc(second))
-    last = pk.node.body[-1]
-    ctx.check("R4", isinstance(last, ast.Return) and unparse(last.value) == f"{pk.params[0]} / 'bumpver.toml'", "fallback: path / 'bumpver.toml'", "config._pick_config_filepath: fallback is not bumpver.toml", unparse(last), loc=pk.loc(last))
+                                class S(ast.NodeTransformer):
+                                    def __init__(self, v_: T.Any):
+                                        self.v_ = v_
+                                    def visit_Name(self, n_: ast.Name) -> ast.AST:
+                                        return ast.Constant(value=self.v_) if n_.id == g_.target.id else n_
+                                vals_ = [S(x_).visit(_cp.deepcopy(node.args[0].elt)) for x_ in items]
+                                return ast.BoolOp(op=ast.Or() if unparse(node.func) == "any" else ast.And(), values=vals_) if len(vals_) > 1 else vals_[0]
+                        return node
+                return U().visit(e)
+            # the section test as the path condition states it (atoms may be the operands of a short-circuit test or one
+            # boolean local): each atom is replaced by what it means in terms of the byte strings searched for
+            meaning = {a: shapes.bool_expr_bf(unfold_any(inline(ast.parse(a, mode="eval").body)), classify) for a in sec_atoms}
+            sec = r.exists(ex_atom[0]).project(sec_atoms).compose(meaning) if sec_atoms else BF.true()
+            # decided on sample contents: the atoms are "this byte string occurs in the file"; a file is to be preferred iff it holds
+            # one of the readers' section headers and a current_version key
+            heads = ["[bumpver]", "[tool.bumpver]", "[pycalver]"]
+            foreign = ["[bumpversion]", "[tool.bumpversion]", "[bumpver2]", "[tool.bumpver-next]", "[metadata]"]
+            samples = []
+            for h_ in heads + foreign:
+                for cv_ in (True, False):
+                    for end_ in ("\n", "\r\n"):
+                        txt_ = "[metadata]" + end_ + "name = x" + end_ + end_ + h_ + end_ + ("current_version = 1" + end_ if cv_ else "version = 1" + end_)
+                        samples.append((txt_, h_ in heads and cv_, h_ in heads))
+            wrong = None
+            for txt_, want_, has_head_ in samples:
+                f_ = sec
+                for a_ in list(sec.atoms):
+                    f_ = f_.restrict(a_, has_head_ if a_ == "SECTION" else (a_.encode() in txt_.encode()))
+                if f_.drop_unused().is_true() != want_ and wrong is None:
+                    wrong = {"content": txt_, "preferred": f_.drop_unused().is_true(), "expected": want_}
+            ctx.check("R4", r.implies(BF.var(ex_atom[0])) and wrong is None,
+                      f"first pass returns the first existing candidate holding a bumpver/pycalver section and current_version  [{len(samples)} sample contents]",
+                      "config._pick_config_filepath: preference for already configured files changed",
+                      f"returns when {r.to_dnf()} with section test {sec.to_dnf()}; differs for {wrong!r}: e.g. a pyproject.toml of another tool (`[tool.bumpversion]` with a current_version key) "
+                      f"is taken for the bumpver configuration and the real one is never read" if wrong else "", loc=pk.loc(first), witness=wrong)
+            opens = [s_ for s_ in effects.sites[pk.fq] if s_.detail.get("via") == "open"]
+            reads = [c for c in ast.walk(first) if isinstance(c, ast.Call) and isinstance(c.func, ast.Attribute) and c.func.attr in ("read", "read_bytes", "read_text", "readline", "readlines", "peek", "read1", "readinto")]
+            partial = [c for c in reads if c.func.attr not in ("read", "read_bytes", "read_text") or c.args or (c.func.attr == "read" and c.keywords)]
+            ctx.check("R4", bool(reads) and not partial, "first pass looks for the section in the whole file", "config._pick_config_filepath: only part of a candidate file is searched for an existing section",
+                      f"`{unparse(partial[0]) if partial else None}`: a [bumpver] section further down (where `init` itself appends it in a long setup.cfg) is not seen, "
+                      f"a second `init` then writes a second configuration into another file", loc=pk.loc(partial[0] if partial else first))
+            ctx.check("R4", len(opens) == 1 and "b" in (opens[0].detail.get("mode") or ""), "first pass reads candidates in binary mode (no decoding errors)", "config._pick_config_filepath: candidate read mode changed", "", loc=pk.loc(first))
+            rets2 = [n for n in ast.walk(second) if isinstance(n, ast.Return)]
+            ok2 = len(rets2) == 1 and unparse(rets2[0].value) == unparse(second.target)
+            if ok2:
+                r2 = pcg.reach(gk.node_containing(rets2[0].value)).drop_unused()
+                ok2 = len(r2.atoms) == 1 and r2.atoms[0].endswith(".exists()") and r2.equiv(BF.var(r2.atoms[0]))
+            ctx.check("R4", ok2, "second pass: the first existing candidate, whatever its content", "config._pick_config_filepath: existence fallback changed", "", loc=pk.loc(second))
+        last = pk.node.body[-1]
+        ctx.check("R4", isinstance(last, ast.Return) and unparse(last.value) == f"{pk.params[0]} / 'bumpver.toml'", "fallback: path / 'bumpver.toml'", "config._pick_config_filepath: fallback is not bumpver.toml", unparse(last), loc=pk.loc(last))
     # the format handed to the readers is the file's extension, for every candidate name (also `.bumpver.toml`)
     import pathlib as _pl
     pcf_ = prog.function("config._parse_config_and_format") if prog.has_function("config._parse_config_and_format") else prog.function("config.init_project_ctx")
@@ -428,3 +433,78 @@ def _pattern_regex(ctx, pattern: str, parts: T.Dict[str, str]) -> str:
                 out += re.escape(ch)
                 i += 1
     return out
+
+
+def pick_config_eval(ctx, rule: str, names: T.List[str]) -> bool:
+    """config._pick_config_filepath evaluated on an abstract directory for every assignment of {absent, empty, unrelated, foreign
+    section with a current_version key, bumpver section with current_version} to the candidate files: the first candidate that
+    holds a bumpver / pycalver section with current_version, else the first that exists, else bumpver.toml - whole files are
+    read, in binary mode."""
+    import itertools
+    from sa.model import Abstract, CannotFold, EvalError
+    prog = ctx.prog
+    pk = prog.function("config._pick_config_filepath")
+    pad = b"[metadata]\nname = x\n" + b"# filler\n" * 600          # a section far down a long file
+    kinds = {"E": b"", "U": b"[tool.black]\nline-length = 100\n", "F": b"[tool.bumpversion]\ncurrent_version = 1.0.0\n",
+             "S": pad + b"[bumpver]\ncurrent_version = \"1.2.3\"\nversion_pattern = \"MAJOR.MINOR.PATCH\"\n"}
+
+    class Fobj(Abstract):
+        def __init__(self, data: bytes, mode: str):
+            self.data, self.mode = data, mode
+
+        def read(self, *a: T.Any) -> T.Any:
+            d = self.data if not a or a[0] in (None, -1) else self.data[:a[0]]
+            return d if "b" in self.mode else d.decode()
+
+    class File(Abstract):
+        def __init__(self, name: str, kind: T.Optional[str]):
+            self.name, self.kind = name, kind
+
+        def exists(self) -> bool:
+            return self.kind is not None
+
+        def is_file(self) -> bool:
+            return self.kind is not None
+
+        def open(self, *a: T.Any, **k: T.Any) -> Fobj:
+            return Fobj(kinds[self.kind], str(k.get("mode", a[0] if a else "r")))
+
+        def read_bytes(self) -> bytes:
+            return kinds[self.kind]
+
+        def read_text(self, *a: T.Any, **k: T.Any) -> str:
+            return kinds[self.kind].decode()
+
+        def __repr__(self) -> str:
+            return self.name
+
+    class Dir(Abstract):
+        def __init__(self, assign: T.Dict[str, T.Optional[str]]):
+            self.assign, self.made = assign, {}
+
+        def __sym_div__(self, other: T.Any) -> File:
+            self.made.setdefault(other, File(other, self.assign.get(other)))
+            return self.made[other]
+    order = list(names)
+    wrong: T.List[str] = []
+    n = 0
+    try:
+        for combo in itertools.product((None, "E", "U", "F", "S"), repeat=len(order)):
+            assign = dict(zip(order, combo))
+            d = Dir(assign)
+            try:
+                got, _ys = prog.run_body(pk, {pk.params[0]: d, "__strict__": True})
+                got_name = getattr(got, "name", got)
+            except EvalError as ex:
+                got_name = f"raises: {ex}"
+            want = next((nm for nm in order if assign[nm] == "S"), None) or next((nm for nm in order if assign[nm] is not None), None) or "bumpver.toml"
+            n += 1
+            if got_name != want and len(wrong) < 4:
+                wrong.append(f"{ {k: v for k, v in assign.items() if v} } -> {got_name}, expected {want}")
+    except (CannotFold, TypeError, AttributeError, KeyError, ValueError, IndexError) as ex:
+        ctx.observe(f"config._pick_config_filepath not evaluated ({type(ex).__name__}: {str(ex)[:80]})")
+        return False
+    ctx.check(rule, not wrong, f"_pick_config_filepath: first candidate with a bumpver section and current_version, else first existing, else bumpver.toml ({n} directory states evaluated)",
+              "config._pick_config_filepath: a file that holds the bumpver configuration is not preferred (or another file is)", "; ".join(wrong[:2]) +
+              " (E empty, U unrelated, F foreign section, S bumpver section far down the file)", loc=pk.loc(), witness={"cases": wrong[:3]})
+    return True
